@@ -432,8 +432,9 @@ class EDEOption(Option):  # lgtm[py/missing-equals]
         text = parser.get_remaining()
 
         if text:
-            if text[-1] == 0:  # text MAY be null-terminated
-                text = text[:-1]
+            # text MAY be null-terminated; dropping every trailing NUL (not just
+            # one) makes decoding idempotent
+            text = text.rstrip(b"\x00")
             btext = text.decode("utf8")
         else:
             btext = None
